@@ -253,7 +253,7 @@ def run(ctx: Ctx):
                 "sansio parse_cookie (whole header and the pair a user agent returns), http.parse_cookie(environ) and, where the path/domain "
                 "allow a request to be formed, the test client's jar + next request; cases = TLC-exported model universe (values <= 2/3 chars over "
                 "18 representative code points, every byte value and class-boundary code point alone and between letters, attribute products), a "
-                "sweep of 400+ boundary code points in 6 contexts, an attribute-grammar product (Domain: leading dot(s) x port x 1-3 labels x script per position incl. IDN TLDs and mixed case x dump_cookie / Response.set_cookie / Response.delete_cookie / Client.set_cookie; Path: feature subsets over 1-3 segments), seeded random values over all of Unicode weighted to quotes/separators/"
+                "sweep of 400+ boundary code points in 6 contexts, an attribute-grammar product (Domain: leading dot(s) x port x 1-3 labels x script per position incl. IDN TLDs and mixed case x dump_cookie / Response.set_cookie / Response.delete_cookie / Client.set_cookie; Path: feature subsets over 1-3 segments; Expires / Max-Age: naive / aware datetimes in fixed offsets and zoneinfo zones at DST edges, int / float / 0 timestamps, string, absent x Max-Age int / timedelta / 0 / negative x process time zone UTC / EST+5 / Asia/Kolkata, with the jar's stored Cookie.expires / max_age read back after Client.set_cookie), seeded random values over all of Unicode weighted to quotes/separators/"
                 "controls/attack strings with random attribute combinations; non-trivial = distinct case whose value has a character outside "
                 "the cookie-octet set or that requests at least one attribute")
     ctx.assumptions += [
@@ -262,6 +262,7 @@ def run(ctx: Ctx):
         "IDNA of a non-ASCII label is a trusted input: the harness logs Python's idna codec applied to each BARE host label (never to the domain argument as a whole), with a built-in table of well-known pairs as fallback; the judge itself drops port and leading dots, splits the labels and assembles the canonical Domain (ASCII labels unchanged, case kept); domains are host names (no ';' or controls), keys are RFC 7230 tokens, values are sequences of Unicode scalar values (no lone surrogates)",
         "the Path attribute must be printable ASCII without ';' and percent-decode to the requested path; its exact quoting is only compared as model drift",
         "a clock-derived Expires (max_age given, expires not) must equal the HTTP date of clock+max_age for a clock reading between the instants recorded around the call (+-1 s)",
+        "a naive datetime given as expires denotes UTC (documented); the requested instant is generated as (day number, second of day) and handed over as naive / aware datetime or timestamp by the harness; the expected IMF-fixdate is computed in TLA+ from that instant; the process time zone (TZ + tzset inside the worker, restored afterwards) must not change any emitted or stored value",
         "the jar path is exercised only for paths of unreserved characters and ASCII-lowercase hosts (so that a matching request can be formed without knowledge of the implementation)",
     ]
     for cfg in ("MCQ_values", "MCQ_attrsA", "MCQ_attrsB") if q else ("MCT_values4", "MCT_values5", "MCT_full", "MCQ_attrsA", "MCQ_attrsB"):
@@ -275,7 +276,7 @@ def run(ctx: Ctx):
     jobs = _model_cases(ctx, ("MCX_values", "MCX_attrsA", "MCX_attrsB") if q else ("MCXT_values", "MCX_attrsA", "MCX_attrsB"))
     jobs += [("sweep", c) for c in ck.sweep_cases()]
     # attribute grammar: Domain (dot x port x label count x scripts per position x call path) and Path feature products
-    grammar = ck.domain_product(not q) + ck.path_product(not q)
+    grammar = ck.domain_product(not q) + ck.path_product(not q) + ck.time_product(not q)
     jobs += [("grammar", c) for c in grammar]
     ctx.notes["attribute_grammar_cases"] = len(grammar)
     n = 2000 if q else 40000
